@@ -208,3 +208,10 @@ def run(repo: Repo, tier: str) -> Report:
     rep.floor("divisions classified", len(divs), 60)
     rep.floor("scalar division obligations", sum(1 for o in rep.obls if o.rule == "R-DIVGUARD"), 25)
     return rep
+
+
+def thorough(repo: Repo, rep: Report):
+    """Cross-check of the AST array-ness approximation (used by R-DIVGUARD / E5) against Numba's typed IR."""
+    from ..thorough import crosscheck_arrays
+    kernels = load_kernels(repo)
+    return {"arrays_ast_vs_typed_ir": crosscheck_arrays(repo, kernels, None)}
